@@ -7,6 +7,7 @@ V: Trace_Origin validates recorded pad/unpad calls for every length and recorded
    issuer histories (look-alike origins registered, real requests evaluated):
    logged request size = WireSize(Blocks(len)), served iff registered."""
 import vlib
+from checks import verdicts_common as vc
 from checks import c04
 
 
@@ -18,10 +19,12 @@ def run(ctx):
     ctx.model_check("MC_OriginPad", ctx.pick("MC_OriginPad.cfg", "MC_OriginPad_thorough.cfg"))
     ctx.build_harness()
     n, files, cases = ctx.record_and_validate("origin", "Trace_Origin", describe=describe, key=lambda e, c: "origin %s %s" % (e.get("op"), e["_why"]))
+    vn, vcases, vdepth = vc.run(ctx, ["rlorigins"])   # Verdicts.tla: one issuer, every history of requests for look-alike names
     hist = [c for c in cases if c["op"] == "Hist"]
     return ctx.finish({
         "traces_validated_against_impl": len(hist),
         "events_validated": n,
+        **vc.coverage(vn, vcases, vdepth),
         "evaluations": len(cases),
         "distinct_nontrivial": len({vlib.json.dumps(c, sort_keys=True) for c in cases}),
         "rule": "Pad case = one name (seeded, also with an inner / trailing NUL) through pad+unpad; Hist case = one issuer history: "
@@ -38,4 +41,6 @@ def run(ctx):
 
 
 def replay(ctx, path):
+    if vlib.json.load(open(path)).get("family") == "verdicts":
+        return vc.replay(ctx, path)
     return ctx.replay_case(path, "origin", "Trace_Origin")
